@@ -373,7 +373,27 @@ def _phase1(arg):
   return st, []
 
 
+TSMAP = {1: 1.75, 2: 1.25, 3: 1.5}
+
+
+def fractional_timestamps(params):
+  """Timestamps are opaque to the cache and the writer except for their order (and, under MIN_TIMESTAMP_LAG, their
+  distance from the clock).  Jobs without a lag therefore use sub-second timestamps that share one whole second and
+  arrive newest-first where the program says 1 then 2: anything that compares or keys on int(timestamp) shows."""
+  if params.get('lag') or params.get('integer_timestamps'):
+    return params
+  def conv(op):
+    if isinstance(op, (list, tuple)) and len(op) >= 3 and op[0] == 'store':
+      return (op[0], op[1], TSMAP.get(op[2], op[2])) + tuple(op[3:])
+    return op
+  out = dict(params)
+  out['init'] = [(m, TSMAP.get(ts, ts), v) for m, ts, v in params.get('init', ())]
+  out['reactor'] = [conv(op) for op in params.get('reactor', ())]
+  return out
+
+
 def run_jobs(ctx, jobs, prop, required):
+  jobs = [(fractional_timestamps(j[0]), j[1]) for j in jobs]
   jobs = core.seeded_order(jobs, ctx.seed)
   from . import daemonconf
   daemonconf.prefetch([(INF, False, 'base')])
